@@ -131,8 +131,10 @@ class Env:
 
 
 @contextlib.contextmanager
-def virtual_env():
-    """Fresh VLoop installed as the current loop, streamz' clock virtualised."""
+def virtual_env(t0=0.0):
+    """Fresh VLoop installed as the current loop, streamz' clock virtualised.  t0: where the virtual clock starts (0, or
+    a realistic epoch value such as 1.7e9 -- arithmetic on time stamps of that size loses what a narrow float type
+    cannot hold)."""
     from tornado.ioloop import IOLoop
     import streamz.core as score
     import streamz.sinks as ssinks
@@ -140,6 +142,10 @@ def virtual_env():
     warnings.simplefilter('ignore')
     logging.getLogger('streamz.core').setLevel(logging.CRITICAL + 10)
     loop = VLoop()
+    loop._vt = float(t0)
+    if abs(t0) > 1e6:
+        # asyncio fires the timers with when < time() + clock resolution; 1 ns vanishes next to an epoch-sized float
+        loop._clock_resolution = 1e-6
     asyncio.set_event_loop(loop)
     io = IOLoop.current()
     assert io.asyncio_loop is loop
